@@ -173,6 +173,33 @@ def graded_chop(draw, preserve: Optional[str] = None) -> Dict[str, Any]:
     return args
 
 
+def draw_arcs(draw, case, max_arcs: int = 2) -> List[Dict[str, Any]]:
+    """0-2 circular-arc edges on lattice edges of selected cells; the arc point is the edge's midpoint displaced
+    perpendicular to the edge by 5-30 % of its length (far from a half circle), declared on one of the blocks that
+    contain the edge."""
+    dims = case["dims"]
+    pos = node_positions(case)
+    out = []
+    seen = set()
+    for _ in range(draw(st.integers(0, max_arcs))):
+        c = draw(st.sampled_from(case["cells"]))
+        nodes = cell_nodes(dims, c)
+        i, j = draw(st.sampled_from([e for ax in (0, 1, 2) for e in HEX_EDGES_BY_AXIS[ax]]))
+        n1, n2 = nodes[i], nodes[j]
+        if frozenset((n1, n2)) in seen:
+            continue
+        seen.add(frozenset((n1, n2)))
+        chord = pos[n2] - pos[n1]
+        helper = np.array(draw(st.sampled_from([[1.0, 0.3, 0.2], [0.2, 1.0, 0.3], [0.3, 0.2, 1.0]])))
+        perp = np.cross(chord, helper)
+        if np.linalg.norm(perp) < 0.1 * np.linalg.norm(chord):
+            perp = np.cross(chord, helper[::-1])
+        perp = perp / np.linalg.norm(perp)
+        frac = draw(st.floats(0.05, 0.3)) * draw(st.sampled_from([1, -1]))
+        out.append({"nodes": [n1, n2], "bulge": (perp * frac * np.linalg.norm(chord)).tolist(), "owner": draw(st.integers(0, 3))})
+    return out
+
+
 def multi_count_chop(draw) -> List[Dict[str, Any]]:
     k = draw(st.integers(2, 3))
     ratios = {2: [[0.5, 0.5], [0.25, 0.75], [0.6, 0.4]], 3: [[0.25, 0.5, 0.25], [0.2, 0.3, 0.5]]}[k]
@@ -256,6 +283,7 @@ class Built:
         self.axes: List[List[Tuple[int, int]]] = []  # per op: local axis -> (gdir, sign)
         self.points: List[np.ndarray] = []  # per op: 8 corner positions in the op's own order
         self.applied: List[Dict[str, Any]] = []  # chops as applied: op index, local axis, kwargs, gdir, sign
+        self.arcs: List[Dict[str, Any]] = []  # arc edges as declared: op index, local corners, arc point
 
 
 def localize_args(args: Dict[str, Any], sign: int, length: float) -> Dict[str, Any]:
@@ -332,6 +360,26 @@ def build(case, with_chops: bool = True) -> Built:
                 b.ops[oi].chop(la, **kw)
                 kws.append(kw)
             b.applied.append({"op": oi, "axis": la, "kwargs": kws, "gdir": ch["gdir"], "sign": sign, "cell": ch["cell"]})
+    for arc in case.get("arcs") or []:
+        n1, n2 = arc["nodes"]
+        owners = [oi for oi, c in enumerate(b.cells) if n1 in cell_nodes(dims, c) and n2 in cell_nodes(dims, c)]
+        if not owners:
+            continue
+        oi = owners[arc.get("owner", 0) % len(owners)]
+        nodes = cell_nodes(dims, b.cells[oi])
+        perm = ROT[case["orient"][oi]]
+        local = {nodes[perm[i]]: i for i in range(8)}
+        c1, c2 = local[n1], local[n2]
+        point = (pos[n1] + pos[n2]) / 2 + np.asarray(arc["bulge"])
+        op = b.ops[oi]
+        if c1 < 4 and c2 < 4:
+            op.bottom_face.add_edge(c1 if (c1 + 1) % 4 == c2 else c2, cb.Arc(point))
+        elif c1 >= 4 and c2 >= 4:
+            k1, k2 = c1 - 4, c2 - 4
+            op.top_face.add_edge(k1 if (k1 + 1) % 4 == k2 else k2, cb.Arc(point))
+        else:
+            op.add_side_edge(min(c1, c2), cb.Arc(point))
+        b.arcs.append({"op": oi, "corners": [c1, c2], "point": point.tolist()})
     for op in b.ops:
         b.mesh.add(op)
     return b
